@@ -158,6 +158,11 @@ impl SerdeParser {
             if let Some(eq_pos) = after_rename.find('=') {
                 let after_eq = &after_rename[eq_pos + 1..].trim_start();
 
+                // A string literal (escaped or raw) has the value the compiler gives it
+                if let Some(value) = super::validator_parser::leading_string_literal(after_eq) {
+                    return Some(value);
+                }
+
                 // Extract value from quotes
                 if let Some(quote_start) = after_eq.find('"') {
                     if let Some(quote_end) = after_eq[quote_start + 1..].find('"') {
